@@ -4,6 +4,7 @@
 From RV Require Import Base.Prelude Base.IdSet M.Util M.UtilProofs M.Proto M.MemStorage
   M.MemStorageProofs M.Inflights M.InflightsProofs M.Progress M.RaftLog M.Quorum M.ConfChange
   M.Msg M.Raft M.RaftProofs.
+From RV Require M.RaftLogProofs.
 From RecordUpdate Require Import RecordSet.
 Import RecordSetNotations.
 
@@ -656,23 +657,49 @@ Proof.
 Qed.
 
 (* ================================================================== *)
-(* 5. The entries handed to an append: contiguous, size-limited        *)
+(* 5. The entries handed to an append: a slice of the log, size-limited *)
 (* ================================================================== *)
 
-(* What is needed of the log representation (C14 proves the full RaftLog
-   invariant; only these two facts are used here): the store satisfies the
-   MemStorage representation invariant, and the unstable entries are numbered
-   consecutively from the unstable offset. *)
+(* What is needed of the log representation (C14's RaftLogProofs.RepInv implies
+   it, see [RepInv_LogInv] below): the store satisfies the MemStorage
+   representation invariant, and the unstable entries are numbered consecutively
+   from the unstable offset. *)
 Definition LogInv (l : raft_log) : Prop :=
-  RepInv (store l) /\ contiguous_from (u_offset (unst l)) (u_entries (unst l)).
+  MemStorageProofs.RepInv (store l) /\ contiguous_from (u_offset (unst l)) (u_entries (unst l)).
+
+(* the entry the log holds at index i: the store's below the unstable offset,
+   the unstable one from the offset on *)
+Definition log_at (l : raft_log) (i : N) : option entry :=
+  if i <? u_offset (unst l) then entry_at (store l) i
+  else nth_error (u_entries (unst l)) (N.to_nat (i - u_offset (unst l))).
+
+(* ents is, element by element, what the log holds at lo, lo+1, ... *)
+Definition from_log (l : raft_log) (lo : N) (ents : list entry) : Prop :=
+  forall k e, nth_error ents k = Some e -> log_at l (lo + N.of_nat k) = Some e.
 
 Definition within_limit (mx : N) (ents : list entry) : Prop :=
   mx <> NO_LIMIT -> total_size entry_size ents <= mx \/ length ents = 1%nat.
 
-Lemma limit_size_contig lo l max : contiguous_from lo l -> contiguous_from lo (limit_size l max).
+Lemma nth_error_firstn_some {A} (l : list A) n k e :
+  nth_error (firstn n l) k = Some e -> nth_error l k = Some e /\ (k < n)%nat.
 Proof.
-  intros H. destruct (limit_size_spec entry_size l max) as ((k & _ & E) & _).
-  unfold limit_size. rewrite E. apply contig_firstn. exact H.
+  revert n k. induction l as [|x l IH]; intros n k H.
+  - rewrite firstn_nil in H. destruct k; discriminate.
+  - destruct n; [destruct k; discriminate|]. destruct k; cbn [firstn nth_error] in *.
+    + split; [exact H|lia].
+    + destruct (IH _ _ H). split; [assumption|lia].
+Qed.
+
+Lemma limit_size_prefix l max : exists k, limit_size l max = firstn k l.
+Proof. destruct (limit_size_spec entry_size l max) as ((k & _ & E) & _). exists k. exact E. Qed.
+
+Lemma limit_size_contig lo l max : contiguous_from lo l -> contiguous_from lo (limit_size l max).
+Proof. intros H. destruct (limit_size_prefix l max) as (k & ->). apply contig_firstn. exact H. Qed.
+
+Lemma limit_size_from_log lg lo l max : from_log lg lo l -> from_log lg lo (limit_size l max).
+Proof.
+  intros H. destruct (limit_size_prefix l max) as (j & ->). intros k e Hk.
+  apply nth_error_firstn_some in Hk. apply H. apply Hk.
 Qed.
 
 Lemma limit_size_within lo l mx :
@@ -685,36 +712,38 @@ Proof.
 Qed.
 
 Lemma limit_size_length_le l max : (length (limit_size l max) <= length l)%nat.
-Proof.
-  destruct (limit_size_spec entry_size l max) as ((k & Hk & E) & _).
-  unfold limit_size. rewrite E, firstn_length. lia.
-Qed.
+Proof. destruct (limit_size_prefix l max) as (k & ->). rewrite firstn_length. lia. Qed.
 
 Lemma storage_entries_ok_spec m lo hi max ctx m' ents :
-  RepInv m -> storage_entries m lo hi max ctx = Ok (m', SOk ents) ->
+  MemStorageProofs.RepInv m -> storage_entries m lo hi max ctx = Ok (m', SOk ents) ->
   exists raw, ents = limit_size raw max /\ contiguous_from lo raw /\
-              N.of_nat (length raw) <= hi - lo.
+              N.of_nat (length raw) <= hi - lo /\
+              (forall k e, nth_error raw k = Some e -> entry_at m (lo + N.of_nat k) = Some e).
 Proof.
   intros HI H. unfold storage_entries in H. rewrite (first_index_ok m HI) in H. cbn [bind] in H.
   destruct (lo <? first_of m) eqn:E1; [discriminate|].
   destruct (MemStorage.last_index m =? u64_max); [discriminate|].
   destruct (MemStorage.last_index m + 1 <? hi); [discriminate|].
   destruct (trig_log m && can_async ctx); [discriminate|].
-  destruct (MemStorage.entries m) as [|e0 t] eqn:El; [discriminate|].
-  rewrite (entries_head_index m e0 t El) in H.
+  cbn [bind] in H.
   destruct (hi <? first_of m) eqn:E4; [discriminate|].
   match type of H with (if ?c then _ else _) = _ => destruct c eqn:E5 end; [discriminate|].
   match type of H with (if ?c then _ else _) = _ => destruct c eqn:E6 end; [discriminate|].
-  injection H as _ He. subst ents. eexists. split; [reflexivity|]. split.
+  injection H as _ He. subst ents. eexists. split; [reflexivity|]. split; [|split].
   - apply contig_firstn.
     replace lo with (first_of m + N.of_nat (N.to_nat (lo - first_of m))) at 1 by lia.
-    apply contig_skipn. destruct HI as (Hc & _). rewrite El in Hc. exact Hc.
+    apply contig_skipn. destruct HI as (Hc & _). exact Hc.
   - rewrite firstn_length. lia.
+  - intros k e Hk. apply nth_error_firstn_some in Hk. destruct Hk as [Hk _].
+    rewrite nth_error_skipn' in Hk. unfold entry_at.
+    destruct (lo + N.of_nat k <? first_of m) eqn:E7; [lia|]. rewrite <- Hk. f_equal. lia.
 Qed.
 
-Lemma u_slice_contig u lo hi ents :
+Lemma u_slice_spec u lo hi ents :
   contiguous_from (u_offset u) (u_entries u) -> u_slice u lo hi = Ok ents ->
-  contiguous_from lo ents.
+  u_offset u <= lo /\ contiguous_from lo ents /\
+  (forall k e, nth_error ents k = Some e ->
+     nth_error (u_entries u) (N.to_nat (lo + N.of_nat k - u_offset u)) = Some e).
 Proof.
   intros Hc H. unfold u_slice in H. inv_bind H. inversion H; subst.
   unfold u_must_check_outofbounds in Hx.
@@ -722,29 +751,55 @@ Proof.
   destruct ((lo <? u_offset u) || (u_offset u + N.of_nat (length (u_entries u)) <? hi)) eqn:E;
     [discriminate|].
   apply orb_false_iff in E. destruct E as [E _].
-  apply contig_firstn.
-  replace lo with (u_offset u + N.of_nat (N.to_nat (lo - u_offset u))) at 1 by lia.
-  apply contig_skipn. exact Hc.
+  split; [lia|]. split.
+  - apply contig_firstn.
+    replace lo with (u_offset u + N.of_nat (N.to_nat (lo - u_offset u))) at 1 by lia.
+    apply contig_skipn. exact Hc.
+  - intros k e Hk. apply nth_error_firstn_some in Hk. destruct Hk as [Hk _].
+    rewrite nth_error_skipn' in Hk. rewrite <- Hk. f_equal. lia.
 Qed.
 
-(* RaftLog::slice: a successful read is numbered consecutively from [lo] and,
-   for lo <> 0 and a real limit, within the limit unless it is one entry *)
+Lemma from_log_app l lo a b :
+  from_log l lo a -> from_log l (lo + N.of_nat (length a)) b -> from_log l lo (a ++ b).
+Proof.
+  intros Ha Hb k e Hk. destruct (Nat.lt_ge_cases k (length a)) as [Hlt|Hge].
+  - rewrite nth_error_app1 in Hk by exact Hlt. apply Ha. exact Hk.
+  - rewrite nth_error_app2 in Hk by exact Hge. specialize (Hb _ _ Hk).
+    replace (lo + N.of_nat k) with (lo + N.of_nat (length a) + N.of_nat (k - length a)) by lia.
+    exact Hb.
+Qed.
+
+Definition good_slice (l : raft_log) (lo mx : N) (ents : list entry) : Prop :=
+  contiguous_from lo ents /\ from_log l lo ents /\ (lo <> 0 -> within_limit mx ents).
+
+Lemma good_slice_nil l lo mx : good_slice l lo mx [].
+Proof.
+  split; [exact I|]. split; [intros [|k] e H; discriminate|]. intros _ _. left. cbn. lia.
+Qed.
+
+Lemma good_slice_limit l lo mx raw :
+  contiguous_from lo raw -> from_log l lo raw -> good_slice l lo mx (limit_size raw (Some mx)).
+Proof.
+  intros Hc Hf. split; [apply limit_size_contig; exact Hc|].
+  split; [apply limit_size_from_log; exact Hf|]. intros Hlo. eapply limit_size_within; eassumption.
+Qed.
+
+(* RaftLog::slice: a successful read is, element by element, what the log holds
+   at lo, lo+1, ...; its indexes are consecutive from lo; and for lo <> 0 and a
+   real limit it is within the limit unless it is one entry *)
 Theorem slice_spec l lo hi mx ents :
-  LogInv l -> slice l lo hi (Some mx) = Ok (SOk ents) ->
-  contiguous_from lo ents /\ (lo <> 0 -> within_limit mx ents).
+  LogInv l -> slice l lo hi (Some mx) = Ok (SOk ents) -> good_slice l lo mx ents.
 Proof.
   intros (HS & HU) H. unfold slice in H. inv_bind H.
   destruct x as [e|]; [discriminate|].
   assert (Hle : lo <= hi).
   { unfold must_check_outofbounds in Hx. destruct (hi <? lo) eqn:E; [discriminate|]. lia. }
-  destruct (lo =? hi) eqn:Eeq.
-  { inversion H; subst. split; [exact I|]. intros _ _. left. cbn. lia. }
+  destruct (lo =? hi) eqn:Eeq; [inversion H; subst; apply good_slice_nil|].
   inv_bind H.
   (* the stored part *)
   assert (Hst : match x with
-                | inl early => early = SOk ents ->
-                               contiguous_from lo ents /\ (lo <> 0 -> within_limit mx ents)
-                | inr ents0 => contiguous_from lo ents0 /\
+                | inl early => early = SOk ents -> good_slice l lo mx ents
+                | inr ents0 => contiguous_from lo ents0 /\ from_log l lo ents0 /\
                                (lo <? u_offset (unst l) = true ->
                                 lo + N.of_nat (length ents0) = N.min hi (u_offset (unst l))) /\
                                (lo <? u_offset (unst l) = false -> ents0 = [])
@@ -753,50 +808,78 @@ Proof.
     - inv_bind Hx0. unfold store_entries in Hx1. inv_bind Hx1. inversion Hx1; subst. clear Hx1.
       destruct x1 as [m' sr]. cbn [snd] in Hx0.
       destruct sr as [ents0|e].
-      + destruct (storage_entries_ok_spec _ _ _ _ _ _ _ HS Hx2) as (raw & -> & Hc & Hlen).
+      + destruct (storage_entries_ok_spec _ _ _ _ _ _ _ HS Hx2) as (raw & -> & Hc & Hlen & Hat).
+        assert (Hfl : from_log l lo raw).
+        { intros k e Hk. unfold log_at.
+          assert (k < length raw)%nat by (apply nth_error_Some; congruence).
+          destruct (lo + N.of_nat k <? u_offset (unst l)) eqn:E; [|lia]. apply Hat. exact Hk. }
         match type of Hx0 with (if ?c then _ else _) = _ => destruct c eqn:Elen end;
           inversion Hx0; subst.
-        * intros E. inversion E; subst. split; [apply limit_size_contig; exact Hc|].
-          intros Hlo. eapply limit_size_within; eassumption.
-        * split; [apply limit_size_contig; exact Hc|]. split; [|discriminate]. intros _.
+        * intros E. inversion E; subst. apply good_slice_limit; assumption.
+        * split; [apply limit_size_contig; exact Hc|].
+          split; [apply limit_size_from_log; exact Hfl|]. split; [|discriminate]. intros _.
           pose proof (limit_size_length_le raw (Some mx)). lia.
       + destruct e; inversion Hx0; subst; discriminate.
-    - inversion Hx0; subst. split; [exact I|]. split; [discriminate|reflexivity]. }
+    - inversion Hx0; subst. split; [exact I|]. split; [intros [|k] e H; discriminate|].
+      split; [discriminate|reflexivity]. }
   destruct x as [early|ents0].
   - inversion H; subst. apply Hst. reflexivity.
-  - destruct Hst as (Hc0 & Hlen & Hnil). inv_bind H. inversion H; subst. clear H.
-    assert (Hc2 : contiguous_from lo x).
+  - destruct Hst as (Hc0 & Hf0 & Hlen & Hnil). inv_bind H. inversion H; subst. clear H.
+    assert (Hc2 : contiguous_from lo x /\ from_log l lo x).
     { destruct (u_offset (unst l) <? hi) eqn:Ehi.
       - inv_bind Hx1. inversion Hx1; subst.
+        destruct (u_slice_spec _ _ _ _ HU Hx2) as (Hoff & Hcu & Hnu).
+        assert (Hfu : from_log l (N.max lo (u_offset (unst l))) x0).
+        { intros k e Hk. unfold log_at.
+          destruct (N.max lo (u_offset (unst l)) + N.of_nat k <? u_offset (unst l)) eqn:E; [lia|].
+          apply Hnu. exact Hk. }
         destruct (lo <? u_offset (unst l)) eqn:Eoff.
-        + apply contig_app; [exact Hc0|]. rewrite (Hlen eq_refl).
-          replace (N.min hi (u_offset (unst l))) with (N.max lo (u_offset (unst l))) by lia.
-          eapply u_slice_contig; eassumption.
+        + specialize (Hlen eq_refl).
+          assert (Hjoin : lo + N.of_nat (length ents0) = N.max lo (u_offset (unst l))) by lia.
+          split; [apply contig_app|apply from_log_app]; try assumption; rewrite Hjoin; assumption.
         + rewrite (Hnil eq_refl). cbn [app].
-          replace lo with (N.max lo (u_offset (unst l))) at 1 by lia.
-          eapply u_slice_contig; eassumption.
-      - inversion Hx1; subst. exact Hc0. }
-    split; [apply limit_size_contig; exact Hc2|]. intros Hlo. eapply limit_size_within; eassumption.
+          replace (N.max lo (u_offset (unst l))) with lo in * by lia. split; assumption.
+      - inversion Hx1; subst. split; assumption. }
+    destruct Hc2. apply good_slice_limit; assumption.
 Qed.
 
 Theorem log_entries_spec l i mx ents :
-  LogInv l -> log_entries l i (Some mx) = Ok (SOk ents) ->
-  contiguous_from i ents /\ (i <> 0 -> within_limit mx ents).
+  LogInv l -> log_entries l i (Some mx) = Ok (SOk ents) -> good_slice l i mx ents.
 Proof.
   intros HI H. unfold log_entries in H.
-  destruct (RaftLog.last_index l <? i).
-  - inversion H; subst. split; [exact I|]. intros _ _. left. cbn. lia.
-  - eapply slice_spec; eassumption.
+  destruct (RaftLog.last_index l <? i); [inversion H; subst; apply good_slice_nil|].
+  destruct (RaftLog.last_index l =? u64_max); [discriminate|].
+  eapply slice_spec; eassumption.
 Qed.
 
-(* Theorem 3: the entries of an emitted MsgAppend (batching off) are numbered
-   next_idx, next_idx+1, ..., i.e. start right after the anchor m_index, and
-   are within max_size_per_msg unless a single entry *)
+(* bridge to C14's representation invariant and abstraction of the RaftLog *)
+Lemma RepInv_LogInv rw l : RaftLogProofs.RepInv rw l -> LogInv l.
+Proof. intros H. split; [apply (RaftLogProofs.ri_store rw l H)|apply (RaftLogProofs.ri_contig rw l H)]. Qed.
+
+Lemma log_at_abs rw l i :
+  RaftLogProofs.RepInv rw l -> RaftLogProofs.ll_first (RaftLogProofs.abs l) <= i ->
+  log_at l i = RaftLogProofs.ll_get (RaftLogProofs.abs l) i.
+Proof.
+  intros H Hi. unfold log_at. destruct (i <? u_offset (unst l)) eqn:E.
+  - destruct (u_snapshot (unst l)) as [s|] eqn:Es.
+    + exfalso. pose proof (RaftLogProofs.ri_shape rw l H) as Hsh. rewrite Es in Hsh.
+      unfold RaftLogProofs.ll_first, RaftLogProofs.abs in Hi. rewrite Es in Hi. cbn in Hi. lia.
+    + symmetry. apply (RaftLogProofs.abs_get_stable rw); [exact H|exact Es|].
+      unfold RaftLogProofs.ll_first, RaftLogProofs.abs in Hi. rewrite Es in Hi. cbn in Hi.
+      pose proof (first_pos _ (RaftLogProofs.ri_store rw l H)). lia.
+  - symmetry. apply (RaftLogProofs.abs_get_unstable rw); [exact H|lia].
+Qed.
+
+(* Theorem 3: the entries of an emitted MsgAppend (batching off) are, element by
+   element, the leader's own log entries at m_index+1, m_index+2, ...; their
+   indexes are consecutive; and they are within max_size_per_msg unless a
+   single entry *)
 Theorem append_entries_contiguous r to pr ae r' pr' m :
   LogInv (r_log r) -> r_batch_append r = false ->
   maybe_send_append r to pr ae = Ok (r', pr', true) ->
   r_msgs r' = r_msgs r ++ [m] -> m_type m = MsgAppend ->
   contiguous_from (m_index m + 1) (m_entries m) /\
+  from_log (r_log r) (m_index m + 1) (m_entries m) /\
   (r_max_msg_size r <> NO_LIMIT ->
      total_size entry_size (m_entries m) <= r_max_msg_size r \/ length (m_entries m) = 1%nat).
 Proof.
@@ -804,9 +887,30 @@ Proof.
   destruct (maybe_send_append_shape _ _ _ _ _ _ Hb H) as (_ & m0 & -> & _ & _ & _ & C).
   cbn in Hm. apply app_inv_head in Hm. inversion Hm; subst m0. clear Hm.
   destruct C as [(_ & Ht' & _)|(_ & _ & _ & Hnx & Hidx & _ & He & _)]; [rewrite Ht in Ht'; discriminate|].
-  destruct (log_entries_spec _ _ _ _ HL He) as (Hc & Hw).
+  destruct (log_entries_spec _ _ _ _ HL He) as (Hc & Hf & Hw).
   rewrite Hidx. replace (next_idx pr - 1 + 1) with (next_idx pr) by lia.
-  split; [exact Hc|]. apply Hw. exact Hnx.
+  split; [exact Hc|]. split; [exact Hf|]. apply Hw. exact Hnx.
+Qed.
+
+(* the same against C14's abstract log: entries = the abstract log's entries at
+   next_idx.., anchor term = the abstract log's term at next_idx-1 *)
+Theorem append_entries_abs rw r to pr ae r' pr' m :
+  RaftLogProofs.RepInv rw (r_log r) -> r_batch_append r = false ->
+  maybe_send_append r to pr ae = Ok (r', pr', true) ->
+  r_msgs r' = r_msgs r ++ [m] -> m_type m = MsgAppend ->
+  RaftLogProofs.ll_term (RaftLogProofs.abs (r_log r)) (m_index m) = SOk (m_log_term m) /\
+  (RaftLogProofs.ll_first (RaftLogProofs.abs (r_log r)) <= m_index m + 1 ->
+   forall k e, nth_error (m_entries m) k = Some e ->
+     RaftLogProofs.ll_get (RaftLogProofs.abs (r_log r)) (m_index m + 1 + N.of_nat k) = Some e).
+Proof.
+  intros HR Hb H Hm Ht.
+  destruct (append_entries_contiguous _ _ _ _ _ _ _ (RepInv_LogInv _ _ HR) Hb H Hm Ht) as (_ & Hf & _).
+  destruct (maybe_send_append_shape _ _ _ _ _ _ Hb H) as (_ & m0 & E & _ & _ & _ & C).
+  rewrite E in Hm. cbn in Hm. apply app_inv_head in Hm. inversion Hm; subst m0. clear Hm.
+  destruct C as [(_ & Ht' & _)|(_ & _ & _ & Hnx & Hidx & Hterm & _)]; [rewrite Ht in Ht'; discriminate|].
+  split.
+  - rewrite (RaftLogProofs.term_abs rw _ _ HR) in Hterm. rewrite Hidx. inversion Hterm. reflexivity.
+  - intros Hfirst k e Hk. rewrite <- (log_at_abs rw) by (exact HR || lia). apply Hf. exact Hk.
 Qed.
 
 (* ================================================================== *)
